@@ -52,6 +52,7 @@ class Interp:
         self.ext_discr = {}
         self.fn_runs = 0
         self.reached = {}         # fn def -> set of entry st
+        self.transitions = {}     # (old S, old L, new S) -> (fn def, file:line)
 
     # ---------------------------------------------------------------------------------------
     def _touches_state(self, f):
@@ -485,7 +486,7 @@ class Interp:
         if s["s"] == "setdiscr":
             pl = s["place"]
             if pl["proj"] and pl["proj"][-1].get("name") == STATE_FIELD and s.get("variant"):
-                return (s["variant"],) + st[1:]
+                return self._set_state(fn, st, s["variant"], fn.span)
             vals.pop(pl["local"], None)
             return st
         if s["s"] != "assign":
@@ -528,7 +529,7 @@ class Interp:
         if dst["proj"]:
             if dst["proj"][-1].get("name") == STATE_FIELD:
                 if tag is not None and tag[0] == "enum" and tag[1] == self.adt_path:
-                    return (tag[2],) + st[1:]
+                    return self._set_state(fn, st, tag[2], "%s:%s" % (fn.file, s.get("line")))
                 raise AnchorMissing("assignment to %s of a value the interpreter cannot name (in %s)"
                                     % (STATE_FIELD, fn.defn))
             # partial write into a tracked aggregate: forget it (unless it writes through a ref)
@@ -540,6 +541,23 @@ class Interp:
         else:
             vals[dst["local"]] = tag
         return st
+
+    ROOT_CONFLICT = 2     # bit of X: the current Conflict was declared at decision level 0
+
+    def _set_state(self, fn, st, new, site):
+        """assignment to the life-cycle field; X bit 1 remembers that a conflict was declared at
+        the root (a refutation of the model, which may only become Infeasible)"""
+        s0, l0, x = st
+        rooted = bool(x & self.ROOT_CONFLICT)
+        old = s0 + ("@root" if (s0 == "Conflict" and rooted) else "")
+        self.transitions.setdefault((old, l0, new), (fn.defn, site))
+        if new == "Conflict" and l0 == 0:
+            x |= self.ROOT_CONFLICT
+        elif new == "Conflict" and s0 == "Conflict":
+            pass
+        else:
+            x &= ~self.ROOT_CONFLICT
+        return (new, l0, x)
 
     # ---------------------------------------------------------------------------------------
     def _call(self, fn, c, st, vals):
